@@ -99,6 +99,12 @@ fn run_variant(project: &Project, entry: &str, v: &Variant, max_steps: u64, want
   .unwrap_or_else(|e| Err(format!("panic: {e}")))
 }
 
+/// how many steps an optimized run may take before it counts as non-terminating: 200x the
+/// unoptimized run for short programs, 8x (plus slack) for programs that already run long
+fn step_cap_of(base_steps: u64) -> u64 {
+  if base_steps < 50_000 { base_steps.saturating_mul(200).saturating_add(1_000_000) } else { base_steps.saturating_mul(8).saturating_add(10_000_000) }
+}
+
 fn same(a: &Trace, b: &Trace) -> bool {
   a.lines == b.lines && a.ending == b.ending
 }
@@ -155,7 +161,7 @@ fn judge(base: &RunOut, out: &Result<RunOut, String>, vname: &str) -> Option<(St
         return Some(("harness".into(), format!("{vname}: {:?}", o.trace.ending)));
       }
       if matches!(o.trace.ending, Ending::StepLimit) {
-        if o.steps > base.steps.saturating_mul(200).saturating_add(1_000_000) {
+        if o.steps > step_cap_of(base.steps) {
           return Some(("introduces-non-termination".into(), format!("{vname}: ran {} steps without finishing; unoptimized finished in {} steps", o.steps, base.steps)));
         }
         return None;
@@ -209,6 +215,10 @@ fn worker(ctx: WorkerCtx) {
           let mut variants: Vec<Variant> = (0..32).map(Variant::Config).collect();
           if big && !thorough {
             variants = vec![Variant::Config(31), Variant::Config(0), Variant::Config(4), Variant::Config(8 + 16)];
+          } else if base.steps > 1_500_000 && !thorough {
+            // long-running programs (loops that take a lap around the 32-bit range): the quick tier
+            // runs the configurations that differ in the loop / inlining flags only
+            variants = vec![Variant::Config(31), Variant::Config(0), Variant::Config(4), Variant::Config(4 + 8), Variant::Config(8), Variant::Config(1 + 2 + 4)];
           }
           for p in samlang_optimization::verif::FUNCTION_PASSES {
             variants.push(Variant::Pass(p));
@@ -219,7 +229,7 @@ fn worker(ctx: WorkerCtx) {
           let mut failing: Vec<(Variant, String, String)> = Vec::new();
           for var in &variants {
             ctx.begin(i, &format!("{kind} {label} {}", var.name()));
-            let step_cap = base.steps.saturating_mul(200).saturating_add(2_000_000).min(budget.saturating_mul(4));
+            let step_cap = step_cap_of(base.steps).saturating_add(1_000_000).min(budget.saturating_mul(4));
             let out = run_variant(&project, &entry, var, step_cap, true);
             if let Ok(o) = &out {
               changed.insert(var.name(), o.printed != base.printed);
@@ -246,7 +256,7 @@ fn worker(ctx: WorkerCtx) {
                 // narrowest first: only the guard operator of the eliminated loop is corrected
                 {
                   hook::set_loop_guard_operator_corrected(true);
-                  let step_cap = base.steps.saturating_mul(200).saturating_add(2_000_000);
+                  let step_cap = step_cap_of(base.steps).saturating_add(1_000_000);
                   let again = run_variant(&project, &entry, var, step_cap, false);
                   hook::set_loop_guard_operator_corrected(false);
                   if judge(&base, &again, &var.name()).is_none() {
@@ -258,7 +268,7 @@ fn worker(ctx: WorkerCtx) {
                     break;
                   }
                   hook::set_disabled_loop_subpasses(mask);
-                  let step_cap = base.steps.saturating_mul(200).saturating_add(2_000_000);
+                  let step_cap = step_cap_of(base.steps).saturating_add(1_000_000);
                   let again = run_variant(&project, &entry, var, step_cap, false);
                   hook::set_disabled_loop_subpasses(0);
                   if judge(&base, &again, &var.name()).is_none() {
@@ -290,7 +300,7 @@ fn worker(ctx: WorkerCtx) {
                   }
                   let pp = p.clone().with_std();
                   match run_variant(&pp, &entry2, &Variant::Unoptimized, budget, false) {
-                    Ok(b) => judge(&b, &run_variant(&pp, &entry2, &var2, b.steps.saturating_mul(200).saturating_add(2_000_000), false), &var2.name()).map(|(s, _)| s == want).unwrap_or(false),
+                    Ok(b) => judge(&b, &run_variant(&pp, &entry2, &var2, step_cap_of(b.steps).saturating_add(1_000_000), false), &var2.name()).map(|(s, _)| s == want).unwrap_or(false),
                     Err(_) => false,
                   }
                 })
@@ -304,7 +314,7 @@ fn worker(ctx: WorkerCtx) {
                 let pp = min.clone().with_std();
                 let wraps = match run_variant(&pp, &entry, &Variant::Unoptimized, budget, false) {
                   Ok(b) => {
-                    let o = run_variant(&pp, &entry, var, b.steps.saturating_mul(200).saturating_add(2_000_000), false);
+                    let o = run_variant(&pp, &entry, var, step_cap_of(b.steps).saturating_add(1_000_000), false);
                     b.trace.ub.overflow || o.map(|o| o.trace.ub.overflow).unwrap_or(false)
                   }
                   Err(_) => false,
@@ -363,7 +373,7 @@ fn main() {
     let check = |p: &Project| -> Option<(String, String)> {
       let pp = p.clone().with_std();
       let b = run_variant(&pp, &entry, &Variant::Unoptimized, 40_000_000, false).ok()?;
-      judge(&b, &run_variant(&pp, &entry, &variant, b.steps.saturating_mul(200).saturating_add(2_000_000), false), &variant.name())
+      judge(&b, &run_variant(&pp, &entry, &variant, step_cap_of(b.steps).saturating_add(1_000_000), false), &variant.name())
     };
     let j = check(&user);
     println!("variant {}: {:?}", variant.name(), j);
@@ -466,7 +476,7 @@ fn main() {
   run.cov("programs_with_wrap_around", json!(overflowing));
   run.assumptions = vec![
     "the MIR interpreter (mirint) defines MIR behaviour with wasm integer semantics; it is calibrated on tests/snapshot.txt for unoptimized and optimized MIR".into(),
-    "an optimized run is non-terminating when it exceeds 200x the unoptimized step count + 2e6 steps".into(),
+    "an optimized run is non-terminating when it exceeds 200x the unoptimized step count + 1e6 steps (8x + 1e7 for programs whose unoptimized run takes more than 50 000 steps)".into(),
   ];
   std::process::exit(run.finish());
 }
